@@ -121,6 +121,7 @@ func (st *Runtime) YieldBlock(name string, context interface{}) {
 		st.context = reflect.ValueOf(context)
 		st.executeList(block.List)
 		st.context = current
+		return
 	}
 
 	st.executeList(block.List)
